@@ -1,5 +1,5 @@
 ---- MODULE MC_Rename ----
 EXTENDS Rename
 NamePool == {"x", "y"}
-AllT == {"def", "use", "strlit", "fclose", "fshadow", "fdef", "lam", "call", "user"}
+AllT == {"def", "use", "strlit", "strlitu", "compr", "fclose", "fshadow", "fdef", "lam", "call", "user"}
 ====
